@@ -202,6 +202,16 @@ class C07(ScanCheck):
             s_ = sc.mk_scenario(rng, v, s, outs, version=2, rct_type=rng.choice([4, 5, 6]), in_kind="key", nadd=len(outs), r=r)
             scen.append((s_, [((0, 2, 0, 3), None)], {"tag-coincidence", "own-add", "tag-y"}))
         scen += self.boundary_scenarios(rng, 8 if q else 40)
+        # large look-ahead tables (>= 1024 rows over 5..11 accounts, the shape a wallet uses): owned outputs in the FIRST and in the
+        # LAST accounts / rows of the ranges, where a table built in slices would lose a remainder
+        for g in range(2 if q else 8):
+            v, s = sc.rscalar(rng), sc.rscalar(rng)
+            nmaj, nmin = rng.choice([(5, 210), (7, 150), (10, 128), (11, 100)])
+            r = (0, nmaj, 0, nmin)
+            idxs = [(0, 0), (nmaj - 1, nmin - 1), (nmaj - 1, 0), (nmaj - 2, 5), (nmaj // 2, nmin // 2), (1, nmin - 1)]
+            outs = [sc.mk_out_wallet(rng, v, s, i, j, (i, j) == (0, 0), rng.choice(["n", "y"]), clear=rng.choice([0, 3])) for (i, j) in idxs]
+            s_ = sc.mk_scenario(rng, v, s, outs, version=2, rct_type=rng.choice([0, 5, 6]), in_kind="key", nadd=len(outs))
+            scen.append((s_, [(r, None)], {"large-table", "own-add"}))
         # degenerate sender secrets: r = 0 publishes the neutral element as transaction key (and r_i = 0 as additional key); the
         # shared secret is then the neutral element too, the one-time key is Hs(O || i) G + S - a genuinely addressed output
         for g in range(6 if q else 30):
